@@ -144,7 +144,7 @@ new.append(entry("C13",
 
 
 LAYOUTS = ["Ints", "Last", "Addrs", "Types", "Dates", "Pointers", "Fixed", "Outer"]
-new.append(entry("C18",
+new.append(entry("C18", level="other",
     functions=["encoding/UTO311-L0x.lemmaLayout" + n for n in LAYOUTS] + ["encoding/UTO311-L0x.lemmaDecode" + n for n in ("Fixed", "Outer", "Addrs")],
     scope=[r"^encoding/UTO311-L0x\.lemma"],
     pinned_file="pins_codec.json", pinned_labels=["contract"],
